@@ -32,7 +32,7 @@ FHuge == Float2(2000000000)  FNegHuge == Float2(-2000000000)
 IHuge == Int_(2000000000)    INegHuge == Int_(-2000000000)
 Lits == {Int_(0), Int_(1), Int_(2), Float2(2), sA, sAB, Bool(TRUE), Null, FHuge, FNegHuge}
       \cup (IF Size = "thorough" THEN {NaN, Float2(3), List(<<Int_(1), Int_(2)>>), IHuge, INegHuge, PInf} ELSE {})
-Pats == {<<97, 42>>, <<42, 98>>, <<92, 42>>}            \* a*   *b   \*
+Pats == {<<97, 42>>, <<42, 98>>, <<92, 42>>, <<42, 97, 97>>}            \* a*   *b   \*   *aa (overlapping false start on "aaa")
 
 Cmp(op, sel, v) == [op |-> op, sel |-> sel, val |-> v]
 Like(sel, p)    == [op |-> "like", sel |-> sel, pat |-> p]
@@ -68,7 +68,7 @@ Stmts == Leaves \cup Conns \cup Quants \cup Nested
 Absent == <<"absent">>
 Ent(key, v) == IF K(v) = "absent" THEN <<>> ELSE <<Entry(key, v)>>
 Datum(a, b, l, mm) == Map(Ent(<<97>>, a) \o Ent(<<98>>, b) \o Ent(<<108>>, l) \o Ent(<<109>>, mm))
-DA == {Absent, Int_(1), sA, FNegHuge} \cup (IF Size = "thorough" THEN {Float2(2), NaN, FHuge, INegHuge} ELSE {})
+DA == {Absent, Int_(1), sA, FNegHuge, Str(<<97, 97, 97>>), Bytes(<<97, 98>>)} \cup (IF Size = "thorough" THEN {Float2(2), NaN, FHuge, INegHuge} ELSE {})
 DB == {Absent, Int_(2), Int_(3)}
 DL == {Absent, List(<<>>), List(<<Int_(1), Int_(2)>>), List(<<Int_(2), sA>>), Int_(5)}
       \cup (IF Size = "thorough" THEN {List(<<Int_(1)>>), List(<<Map(<<Entry(<<120>>, Int_(1))>>), Map(<<>>), Int_(1)>>)} ELSE {})
@@ -83,7 +83,7 @@ vars == <<m>>
 CONSTANT Mode           \* "eval" (C11) | "wire" (C14: IPLD nodes offered as policies)
 
 \* ---- wire mode: well-formed and malformed IPLD nodes offered as policies ----
-WireStmts == Core \cup Nested \cup {Like(t_a, <<97, 42>>), Quant("all", t_l, Cmp(">", t_id, Int_(0))),
+WireStmts == Core \cup Nested \cup {Like(t_a, <<97, 42>>), Like(t_a, <<97, 42, 42>>), Like(t_a, <<92, 42, 42, 98>>), Like(t_a, <<42, 42, 42>>), Quant("all", t_l, Cmp(">", t_id, Int_(0))),
                                     Conn("and", <<>>), Conn("or", <<>>), Cmp("==", t_id, Map(<<Entry(<<97>>, List(<<Int_(1), Null>>))>>))}
 Variants(n) ==      \* single mutations of a statement node (a list)
   LET e == Pv(n) IN
